@@ -1043,6 +1043,16 @@ class Engine:
                 return [(s, VSeq(z3.Concat(a.z, to_z3(b, a.typ)), a.elem))]
             if isinstance(a, VList) and isinstance(b, VSeq):
                 return [(s, VSeq(z3.Concat(to_z3(a, b.typ), b.z), b.elem))]
+            if isinstance(b, VPy) and ((isinstance(a, VSeq) and a.elem.kind == 'str') or
+                                       (isinstance(a, VList) and all(isinstance(i, VStr) for i in a.items))):
+                # list[str] + <dynamically typed value>: concatenation if it is a list, else TypeError
+                P = pyobj_sort()
+                az = a.z if isinstance(a, VSeq) else to_z3(a, 'seq[str]')
+                res = []
+                for s2, isl in self.branch(s, P.is_py_strlist(b.z), node):
+                    res.append((s2, VSeq(z3.Concat(az, P.py_l(b.z)), 'str')) if isl
+                               else (s2, Raised(VExc('TypeError'))))
+                return res
         if isinstance(op, ast.Mult):
             n = concrete_int(b) if isinstance(b, VInt) else None
             if isinstance(a, VInt) and isinstance(b, VBytes):
